@@ -4,7 +4,7 @@ from vcore import Case, Harness, sdk_sources, SDK_INCLUDES
 
 SHIM = ['-include', 'harness/shim/detsched.h', '-DNDEBUG']
 H_PMR = Harness('d_pmr', ['harness/d_reader.cc'], flags=SHIM, includes=SDK_INCLUDES, plain_srcs=['harness/shim/detsched.cc'],
-                sdk_srcs=sdk_sources('common') + ['sdk/src/metrics/export/periodic_exporting_metric_reader.cc', 'sdk/src/metrics/metric_reader.cc'])
+                sdk_srcs=sdk_sources('common') + ['sdk/src/metrics/export/periodic_exporting_metric_reader.cc', 'sdk/src/metrics/export/periodic_exporting_metric_reader_factory.cc', 'sdk/src/metrics/metric_reader.cc'])
 WORDS = {'pmr'}
 
 
@@ -12,9 +12,10 @@ class Cfg:
     def __init__(self, line):
         toks = ' '.join(line.split()[1:]).split(' ; ')
         c = toks[0].split()
-        self.nrec, self.recs = int(c[0]), int(c[1])
+        self.nrec, self.recs = int(c[0].rstrip('rfgxy')), int(c[1])      # suffix: how the reader is built (see d_reader.cc)
+        self.ctor = c[0][-1] if c[0][-1] in 'rfgxy' else ''
         self.fl = '' if c[2] == '-' else c[2]
-        self.nshut = int(c[3])
+        self.nshut = int(c[3].rstrip('tzu'))                            # suffix: the timeout Shutdown is called with
         self.acts = toks[1:]
         self.nstatic = 1 + self.nrec + len(self.fl) + self.nshut
 
@@ -172,8 +173,16 @@ def generate(rng, tier):
                 toks.append(f't{t}')
         if staged_toks:
             toks = staged_toks
-        out.append(Case(f'pmr {nrec} {recs} {fl or "-"} {nshut} {xs} ; ' + ' ; '.join(toks), 'd_pmr',
-                        ('pmr', 'timeout-path' if staged_toks else ('staged' if mode < 0.2 else 'random'), f'fl{len(fl)}sh{nshut}')))
+        # every way of building the reader (two constructors, two factory overloads, options that are refused and replaced by the
+        # defaults) must give the same reader; every timeout value (zero, finite below the interval, 1us, max) for both calls
+        ctor = rng.choice(['', '', 'r', 'f', 'g', 'x', 'y'])
+        if fl and rng.random() < 0.2:
+            k = rng.randrange(len(fl))
+            fl = fl[:k] + rng.choice('hu') + fl[k + 1:]
+        shto = rng.choice(['', '', '', 't', 'z', 'u']) if nshut else ''
+        out.append(Case(f'pmr {nrec}{ctor} {recs} {fl or "-"} {nshut}{shto} {xs} ; ' + ' ; '.join(toks), 'd_pmr',
+                        ('pmr', 'timeout-path' if staged_toks else ('staged' if mode < 0.2 else 'random'), f'fl{len(fl)}sh{nshut}', 'ctor-' + (ctor or 'plain'))
+                        + (('shutdown-timeout-' + shto,) if shto else ()) + (('flush-timeout-below-interval',) if set(fl) & set('hu') else ())))
     return out
 
 
@@ -181,7 +190,11 @@ def corpus():
     return [Case('pmr 1 2 i 1 s ; t0 ; t0 ; t0 ; t1 ; t1 ; t2 ; t2 ; t2 ; t2 ; t2 ; t2 ; t2 ; t0 ; t0 ; t0 ; t0', 'd_pmr', ('corpus', 'pmr'), 'corpus'),
             # D82: Shutdown requested from two threads at once (both used to join the worker)
             Case('pmr 0 1 1 2 sS', 'd_pmr', ('corpus', 'D82-concurrent-shutdown'), 'corpus'),
-            Case('pmr 1 1 i 2 s ; t0 ; t0 ; t0 ; t3 ; t3 ; t4 ; t4 ; t3 ; t4 ; t3 ; t4 ; t0 ; t0', 'd_pmr', ('corpus', 'D82-concurrent-shutdown'), 'corpus')]
+            Case('pmr 1 1 i 2 s ; t0 ; t0 ; t0 ; t3 ; t3 ; t4 ; t4 ; t3 ; t4 ; t3 ; t4 ; t0 ; t0', 'd_pmr', ('corpus', 'D82-concurrent-shutdown'), 'corpus')] + [
+            # every constructor / factory overload, refused options; timeouts below the interval; Shutdown with a given timeout
+            Case(f'pmr 1{c} 2 {f} 1{z} s ; ' + ' ; '.join(['t1'] * 3 + ['t0'] * 6 + ['t2'] * 8 + ['o2', 't2', 't2'] + ['t0'] * 12 + ['t4'] * 6 + ['t3'] * 8),
+                 'd_pmr', ('corpus', 'pmr-ctor-' + (c or 'plain')), 'corpus')
+            for c, f, z in (('', 'h', 't'), ('r', 'u', 'z'), ('f', 'i', 'u'), ('g', 'h', ''), ('x', '2', 't'), ('x', 'u', 'z'), ('y', 'i', ''), ('y', 'h', 'u'))]
 
 
 def history(case_line, out):
@@ -202,13 +215,23 @@ def oracle(case, out, clauses=('c02', 'c03')):
     if out == 'bad-op':
         return ('harness-rejected-case', out)
     cfg, ev, summary = history(case.line, out)
-    m = re.fullmatch(r'done=(\d) reentrant=(\d+)', summary)
+    m = re.fullmatch(r'done=(\d) reentrant=(\d+)(?: cfg=(\d+)/(\d+))?', summary)
     if not m:
         return ('summary', summary)
     if 'c02' in clauses and m.group(1) != '1':
         return ('reader-forceflush-and-shutdown-terminate', summary)
     if 'c03' in clauses and m.group(2) != '0':
         return ('reader-export-never-reentered', summary)
+    if m.group(3) is None:
+        return ('summary', summary)
+    # every constructor / factory overload keeps the interval and timeout it was given (the harness asks for 1000 / 500 ms);
+    # options that are refused (x, y: interval 400 <= timeout 500) are replaced by a valid pair, never kept
+    iv, to = int(m.group(3)), int(m.group(4))
+    if cfg.ctor in ('x', 'y'):
+        if (iv, to) == (400, 500) or not to < iv:
+            return ('reader-refused-options-are-replaced-by-a-valid-configuration', summary)
+    elif (iv, to) != (1000, 500):
+        return ('reader-keeps-the-configured-interval-and-timeout', summary)
     exports = []   # (begin, end, covered)
     xfl = []
     skipped = False
